@@ -1,5 +1,6 @@
 (* C13 - comparison of a model run with the observations recorded from the implementation (definitions only).
-   An expectation per op: the error class (None = no exception) and, optionally, the typed view at a list of locations. *)
+   An expectation per op: the error class (None = no exception) and, optionally, a structured snapshot of the session cache
+   (expanded here into the typed view at every location of the finite universe of the history). *)
 From Coq Require Import ZArith NArith List Bool.
 Import ListNotations.
 Require Import PonyV.Model.C13Heap PonyV.Model.C13Session.
@@ -13,19 +14,62 @@ Definition taint_code (t : taint) : nat :=
   match t with TSetBits => 0 | TSetIdx => 1 | TSetForward => 2 | TSetReverse => 3 | TRemFlag => 4 | TDelNested => 5
              | TNewPk => 6 | TDelCreated => 7 | TInconsistent => 8 end.
 
-Definition expectation := (option err * option (list (loc * cell)))%type.
+Record osnap := mkos {
+  os_cls : nat; os_status : status; os_wbits : option N; os_savepos : option nat;
+  os_vals : list (nat * value);
+  os_colls : list (nat * (list oid * list oid * list oid))       (* attr, (items, added, removed) *)
+}.
+Record snap := mksnap {
+  sn_objs : list osnap;
+  sn_queue : list (option oid);
+  sn_idx : list (nat * list nat * list (list value * oid));      (* entity, spec, entries *)
+  sn_mod : list (nat * nat * oid)
+}.
 
-Definition check_view (s : state) (exp : list (loc * cell)) : list nat :=
-  map fst (filter (fun p => negb (cell_eqb (view s (fst (snd p))) (snd (snd p)))) (combine (seq 0 (length exp)) exp)).
+Definition expectation := (option err * option snap)%type.
+
+Definition ints : list value := [VInt 0; VInt 1; VInt 2].
+Fixpoint product (n : nat) : list (list value) :=
+  match n with O => [[]] | S k => flat_map (fun v => map (cons v) (product k)) ints end.
+Definition cands (spec : list nat) : list (list value) :=
+  match spec with [O] => map (fun k => [VInt (Z.of_nat k)]) (seq 1 12) | _ => product (length spec) end.
+
+Definition lookup_key (k : list value) (l : list (list value * oid)) : option oid :=
+  match find (fun p => key_eqb (fst p) k) l with Some p => Some (snd p) | None => None end.
+
+Definition bnat (b : bool) (code : nat) : list nat := if b then [] else [code].
+
+(* mismatching components, as small codes: 1 next, 2 queue, 10+h*10+{0 cls,1 status,2 wbits,3 savepos,4 vals,5 items,6 added,7 removed}, 3 idx, 4 mod *)
+Definition check_obj (s : state) (n : nat) (h : nat) (o : osnap) : list nat :=
+  bnat (Nat.eqb (g_cls s h) (os_cls o)) (10 + h * 10)
+  ++ bnat (status_eqb (g_status s h) (os_status o)) (11 + h * 10)
+  ++ bnat (opt_eqb N.eqb (g_wbits s h) (os_wbits o)) (12 + h * 10)
+  ++ bnat (opt_eqb Nat.eqb (g_savepos s h) (os_savepos o)) (13 + h * 10)
+  ++ bnat (forallb (fun av => value_eqb (g_val s h (fst av)) (snd av)) (os_vals o)) (14 + h * 10)
+  ++ flat_map (fun c => let a := fst c in let '(its, ad, rm) := snd c in
+        bnat (forallb (fun x => Bool.eqb (g_bool s (LItem h a x)) (mem x its)) (seq 0 (S n))) (15 + h * 10)
+        ++ bnat (forallb (fun x => Bool.eqb (g_bool s (LAdded h a x)) (mem x ad)) (seq 0 (S n))) (16 + h * 10)
+        ++ bnat (forallb (fun x => Bool.eqb (g_bool s (LRemoved h a x)) (mem x rm)) (seq 0 (S n))) (17 + h * 10)) (os_colls o).
+
+Definition check_snap (sch : schema) (s : state) (sn : snap) : list nat :=
+  let n := length (sn_objs sn) in
+  bnat (Nat.eqb (g_next s) n) 1
+  ++ bnat (list_eqb (opt_eqb Nat.eqb) (g_queue s) (sn_queue sn)) 2
+  ++ flat_map (fun ho => check_obj s n (fst ho) (snd ho)) (combine (seq 0 n) (sn_objs sn))
+  ++ bnat (forallb (fun esl => let '(e, spec, entries) := esl in
+                      forallb (fun k => opt_eqb Nat.eqb (g_idx s e spec k) (lookup_key k entries)) (cands spec ++ map fst entries)) (sn_idx sn)) 3
+  ++ bnat (forallb (fun ei => forallb (fun a => forallb (fun h =>
+              Bool.eqb (g_bool s (LMod (fst ei) a h)) (existsb (fun m => let '(e', a', h') := m in Nat.eqb e' (fst ei) && Nat.eqb a' a && Nat.eqb h' h) (sn_mod sn)))
+              (seq 0 (S n))) (set_attr_ids (snd ei))) (combine (seq 0 (length sch)) sch)) 4.
 
 (* walk the history; stop after the first failing op the model marks as tainted (nothing is claimed about later states).
-   Result: list of (op number, 0 = error class differs | S k = k-th expected location differs) *)
+   Result: list of (op number, 0 = error class differs | component code) *)
 Fixpoint check_from (sch : schema) (s : state) (n : nat) (ops : list (option (nat * nat) * op)) (exps : list expectation) : list (nat * nat) :=
   match ops, exps with
   | fo :: ops', ex :: exps' =>
       let out := step sch (fst fo) s (snd fo) in
       let bad_err := if opt_eqb err_eqb (o_err out) (fst ex) then [] else [(n, 0)] in
-      let bad_view := match snd ex with Some l => map (fun k => (n, S k)) (check_view (o_state out) l) | None => [] end in
+      let bad_view := match snd ex with Some sn => map (fun k => (n, k)) (check_snap sch (o_state out) sn) | None => [] end in
       let tainted := match o_err out, o_taints out with Some _, _ :: _ => true | _, _ => false end in
       bad_err ++ bad_view ++ (if tainted || negb (is_empty bad_err) then [] else check_from sch (o_state out) (S n) ops' exps')
   | _, _ => []
@@ -43,3 +87,16 @@ Fixpoint taints_from (sch : schema) (s : state) (ops : list (option (nat * nat) 
       (if failed && negb (is_empty (o_taints out)) then [] else taints_from sch (o_state out) ops')
   | [] => []
   end.
+
+(* both in one pass: (mismatches, per-op (failed?, taint codes)) *)
+Definition check_and_taints sch ops exps := (check_history sch ops exps, taints_from sch empty ops).
+
+(* debugging aid: the model state in the shape of an implementation snapshot *)
+Definition dump (sch : schema) (s : state) :=
+  (g_next s, g_queue s,
+   map (fun h => (h, g_cls s h, g_status s h, g_wbits s h, g_savepos s h,
+                  map (g_val s h) (seq 0 (length (e_attrs (get_ent sch (g_cls s h))))),
+                  map (fun a => (a, members s (LItem h a), members s (LAdded h a), members s (LRemoved h a))) (set_attr_ids (get_ent sch (g_cls s h)))))
+       (seq 0 (S (g_next s)))).
+Definition state_after (sch : schema) (ops : list (option (nat * nat) * op)) : state :=
+  fold_left (fun s fo => o_state (step sch (fst fo) s (snd fo))) ops empty.
